@@ -202,7 +202,7 @@ def e1_subtree(item, deadline):
     acc = Acc()
 
     def run(prefix):
-        return run_execution(cfg, prefix)
+        return run_execution(cfg, prefix, want_states=acc.states)
 
     def on_exec(sysm, points, prefix):
         _record(acc, cfg, cfg_json, sysm, points, prefix)
